@@ -10,7 +10,13 @@ CFG = {
         "Leptos.Ambient.C20_with_restores",
         "Leptos.Ambient.C20_drop_frame",
         "Leptos.Ambient.C20_drop_frame_run",
+        "Leptos.Ambient.C20_sandboxed_arena",
         "Leptos.Ambient.C20_unwrapped_leaks_witness",
+        "Leptos.Ambient.C20_unguarded_rerun_witness",
+        "Leptos.Ambient.C20_unsandboxed_stream_witness",
+        "Leptos.Ambient.poll_core",
+        "Leptos.Ambient.runSteps_guarded",
+        "Leptos.Ambient.pollTask_arena",
         "Leptos.Ambient.C20_isolated_full_false",
         "Leptos.Ambient.view_run",
         "Leptos.Ambient.pollTask_spec",
@@ -24,11 +30,14 @@ CFG = {
     "trivial_tags": ["plain", "in-order", "ooo", "for", "provider", "router", "effect"],
     "rule": "pairs (70%) and triples (30%) of view programs over leaf / eager leaf / on_cleanup / Provider / Suspend(gate) / Suspense / "
             "Resource(gate) / OnceResource, ArcOnceResource, blocking and Arc resources, AsyncDerived, ArcAsyncDerived, LocalResource / spawn_local_scoped task / "
-            "Action dispatched while rendering / Effect::new_isomorphic / arena items (RwSignal, StoredValue) allocated in a child owner and read after a later await / "
+            "Action dispatched while rendering / Effect::new_isomorphic / Resource, ArcResource, AsyncDerived, ArcAsyncDerived whose fetcher RE-RUNS (source set in the same render = before the task's first poll, "
+            "set later, refetch()) reporting in its sync part, async part and after its await / bodies behind both Sandboxed entry points (a user stream chained behind the app stream inside the response body's "
+            "Sandboxed = Stream::poll_next; reactive_graph::spawn tasks = Future::poll) reading arena handles with and without an owner entered / arena items (RwSignal, StoredValue) allocated in a child owner and read after a later await / "
             "For / fragment (every async leaf's future reports AFTER its own await), nested to depth 3 (4 in thorough), one case in three renders the SAME page in every request (same arena keys), one request in four routed (Router + FlatRoutes or Routes, the program being the matched route's view), in-order or out-of-order streams, rendered CONCURRENTLY on one "
             "thread through the real build_response; schedule = random sequence of start r / fire r g / ps r (r's tasks + stream to a fixpoint) / "
             "poll i (i-th ready task of the controlled executor, any request) / drop r / abort r b (client abort: body dropped unpolled while request b's arena is current), then end; plus, exhaustively, ALL 80 interleavings of "
-            "{start r, fire r 1, ps r} for 8 (thorough: 10) fixed program pairs and all 102 interleavings x 2 of [start 0, ps 0, abort 0 1] with [start 1, ps 1, fire 1 1, ps 1] for 3 pages; every case is run in two build configurations (sandboxed-arenas with "
+            "{start r, fire r 1, ps r} for 8 (thorough: 10) fixed program pairs all 102 interleavings x 2 of [start 0, ps 0, abort 0 1] with [start 1, ps 1, fire 1 1, ps 1] for 3 pages, and all 70 alternations of [start r, ps r, fire r 1, ps r] (r = 0, 1: two response bodies "
+            "polled alternately) for 4 (thorough: 5) pages with sandboxed-only bodies and re-running resources; every case is run in two build configurations (sandboxed-arenas with "
             "the real leptos_integration_utils::build_response; global arena with build_response reproduced). Oracle: each response's HTML and leaf log "
             "== the same request replayed ALONE with the same relative order of its own actions. Shared observable: per response, the context tags "
             "each leaf saw. distinct = distinct op text; trivial = no async boundary / cleanup / early drop (tags only in plain,in-order,ooo,for,provider). "
@@ -41,10 +50,12 @@ CFG = {
         "the driver's table of which leaf is rendered where/when (Driver/C20.lean: compile/resolveNodes) — validated by the differential run, not proved",
     ],
     "modelled": [
-        "thread-locals OWNER/OBSERVER/MAP", "Owner::with / set / unset / new_root", "WithObserver::with_observer", "ScopedFuture::poll", "Sandboxed::poll",
+        "thread-locals OWNER/OBSERVER/MAP", "Step.enter = owner.with(|| observer.with_observer(..)) inline in an unwrapped task (spawn_derived! runs/re-runs, isomorphic effects)", "Owner::with / set / unset / new_root", "WithObserver::with_observer", "ScopedFuture::poll", "Sandboxed::poll",
         "spawn sites' wrapping flags (spawn_local_scoped = ScopedFuture+Sandboxed; reactive_graph::spawn = Sandboxed only: Action::dispatch, OnceResource (ScopedFuture at construction), ArcAsyncDerived tasks)", "use_context / provide_context", "ArenaItem allocation + Owner::cleanup of a root",
         "WHICH call sites are wrapped: modelled, not verified — checked by the correspondence (unwrapped sites found and repaired: F-C20-1/2/3, F-C20-4)",
         "slotmap key uniqueness", "ScopedFuture::new without a current owner (unwrap_or_default) not modelled",
+        "sandboxed-only bodies do not ALLOCATE arena items without an owner in the generated programs: ArenaItem::new registers the item with Owner::current(), which for such a body is the ambient "
+        "owner (by design of reactive_graph::spawn) - observed: the item then lives and dies with another request's owner",
     ],
     "assumptions": [
         "one OS thread (thread-locals are per thread: cross-thread interleavings reduce to this case per thread; real multi-thread scheduling is out of reach)",
@@ -55,7 +66,8 @@ CFG = {
         "text": "Lean 4 theorems about the WRAPPER DISCIPLINE (Model/Ambient: shared thread-local owner/observer/arena; tasks polled in any order): if every task "
                 "of every request is wrapped (ScopedFuture) and names only its own owners, then for ALL worlds, task programs (with awaits and spawns) and ALL "
                 "interleavings every observation shows the request's own owner, arena and context, and each request's observation sequence equals the one of its "
-                "solo run (C20_wrapped_isolated, non-interference by induction over the schedule); Owner::with/with_observer restore on exit (C20_with_restores); "
+                "solo run (C20_wrapped_isolated, non-interference by induction over the schedule; the discipline = wrapped OR guarding every step, which covers the unwrapped tasks of re-running resources); "
+                "sandboxed-only code (reactive_graph::spawn bodies, streams inside the body's Sandboxed) still sees its own arena (C20_sandboxed_arena); Owner::with/with_observer restore on exit (C20_with_restores); "
                 "cleaning up one root disposes nothing of another, global or per-request arenas (C20_drop_frame); the unhypothesised statement is refuted by a "
                 "kernel-checked witness (C20_unwrapped_leaks_witness: one unwrapped task leaks). WHICH real call sites are wrapped is modelled, not verified: the "
                 "correspondence exercises the real call sites (build_response, Suspend, Suspense, Resource/OnceResource/AsyncDerived families, Action, spawn_local_scoped, isomorphic effects, Provider, For, Router/FlatRoutes/Routes, on_cleanup, arena items of child owners, client aborts; two arena configurations) "
